@@ -323,22 +323,7 @@ Definition load_mem_line (md : model) (ln : rule) : model :=
   end.
 
 (* filter test of the loaders *)
-(* file adapter: tokens[i+1] is indexed whenever the filter value is non-empty
-   (no break): None = panic *)
-Fixpoint file_filtered_out (fvals : list text) (fields : list text) : option bool :=
-  match fvals with
-  | [] => Some false
-  | v :: vs =>
-    if teqb v [] then file_filtered_out vs (tl fields)
-    else match fields with
-         | [] => None
-         | f :: fs => match file_filtered_out vs fs with
-                      | None => None
-                      | Some b => Some (negb (teqb f v) || b)
-                      end
-         end
-  end.
-(* memory / string adapters (repaired): a missing field differs from any value *)
+(* all three bundled adapters (after the repairs): a missing field differs from any value *)
 Fixpoint get_filtered_out (fvals : list text) (fields : list text) : bool :=
   match fvals with
   | [] => false
@@ -351,25 +336,8 @@ Fixpoint get_filtered_out (fvals : list text) (fields : list text) : bool :=
 Definition sec_filter (fp fg : list text) (sec : text) : list text :=
   if teqb sec s_p then fp else if teqb sec s_g then fg else [].
 
-(* returns the model, whether some line was left out, None = panic *)
-Fixpoint file_load_filtered (fp fg : list text) (md : model) (lines : list rule)
-  : option (model * bool) :=
-  match lines with
-  | [] => Some (md, false)
-  | ln :: rest =>
-    match ln with
-    | (c :: krest) :: fields =>
-      match file_filtered_out (sec_filter fp fg [c]) fields with
-      | None => None
-      | Some out =>
-        match file_load_filtered fp fg (if out then md else load_line md ln) rest with
-        | None => None
-        | Some (md', fl) => Some (md', out || fl)
-        end
-      end
-    | _ => file_load_filtered fp fg md rest
-    end
-  end.
+(* returns the model and whether some line was left out (file and string
+   adapters share the line format) *)
 Fixpoint str_load_filtered (fp fg : list text) (md : model) (lines : list rule) : model * bool :=
   match lines with
   | [] => (md, false)
@@ -410,10 +378,7 @@ Definition ad0_load_filtered (a : adapter) (fp fg : list text) (md : model) : ad
   match a with
   | ANull => (a, md, LROk)
   | AMemory l _ => let (md', fl) := mem_load_filtered fp fg md l in (AMemory l fl, md', LROk)
-  | AFile l f => match file_load_filtered fp fg md l with
-                 | None => (a, md, LRPanic)
-                 | Some (md', fl) => (AFile l fl, md', LROk)
-                 end
+  | AFile l _ => let (md', fl) := str_load_filtered fp fg md l in (AFile l fl, md', LROk)
   | AString l _ => let (md', fl) := str_load_filtered fp fg md l in (AString l fl, md', LROk)
   | AScripted _ _ => (a, md, LROk)
   end.
